@@ -157,6 +157,8 @@ type Profile struct {
 	Off        map[string]bool // features switched off (known findings, or outside the property's domain)
 	Sanitize   bool            // generate sanitizer / validator calls (C02)
 	Enter      bool            // instrument function entries with enter(id) (C12/C18)
+	Go         bool            // C13/C14: goroutines sharing memory (closures, arguments, globals, channels)
+	Probes     bool            // C11: probe statements on pointer-like values
 	Wild       bool            // C07: goroutines, recover, unsafe, recursive types, bodyless functions...
 }
 
@@ -180,6 +182,7 @@ type gen struct {
 	nlabel       int
 	closureDepth int
 	nenter int
+	nprobe int
 }
 
 func (g *gen) emit(format string, a ...any) int {
